@@ -163,6 +163,7 @@ PROPS = {
         "assumptions": ["environments are final releases with python_version = major.minor of python_full_version (the property's quantifier)"],
     },
     "C06": {
+        "ext_in_quick": True,
         "lean_targets": ["Pep508.Theorems.C06", "Pep508.Theorems.C19b", "Pep508.Theorems.NonVacuityC"],
         "theorems": ["Pep508.C06.marker_tree_never_panics", "Pep508.C06.marker_tree_err_span", "Pep508.C06.marker_tree_err_sliceable",
                      "Pep508.C06.marker_expression_never_panics", "Pep508.C06.marker_expression_err_span", "Pep508.C06.take_while_sliceable",
@@ -226,6 +227,7 @@ PROPS = {
         "trusted": ["diagrams in which one version value is interned under two spellings (K1) are compared semantically only"], "assumptions": ["ExtReadsPrinted x: the external version parser reads back what the printer prints (witnessed by a concrete decoder; the real pep440_rs below u64::MAX)", "SpellOK spell (normalised releases are printed under a spelling that strips back to them; witnessed)", "text round trip: bounds separated from version 0 / NUL-terminated strings, values with at most one kind of quote, modern key spellings (the carve-outs are proved necessary)"],
     },
     "C08": {
+        "ext_in_quick": True,
         "lean_targets": ["Pep508.Theorems.C08b", "Pep508.Theorems.C05", "Pep508.Theorems.C08", "Pep508.Theorems.NonVacuityC"],
         "theorems": ["Pep508.C08.requirement_roundtrip_full", "Pep508.C08.requirement_roundtrip_true", "Pep508.C08.requirement_roundtrip_false", "Pep508.C08.requirement_roundtrip", "Pep508.C08.requirement_roundtrip_identity", "Pep508.C08.printed_never_rejected", "Pep508.C08.unnamed_roundtrip_full", "Pep508.C08.k1_instance", "Pep508.C08.k1_instance_url", "Pep508.C08.printed_form", "Pep508.C08.roundtrip", "Pep508.C08.roundtrip_marker", "Pep508.C08.marker_cursor",
                      "Pep508.C08.calls", "Pep508.C08.calls_spans", "Pep508.C08.never_rejected", "Pep508.C08.name_fixed",
@@ -285,6 +287,7 @@ PROPS = {
         "trusted": ["memory ordering of the lock-free arena reads and deadlock-freedom of std::sync::Mutex are outside any executable model"], "assumptions": [],
     },
     "C19": {
+        "ext_in_quick": True,
         "lean_targets": ["Pep508.Theorems.C08b", "Pep508.Theorems.C19", "Pep508.Theorems.C19b", "Pep508.Theorems.NonVacuityC"],
         "theorems": ["Pep508.C08.unnamed_roundtrip_full", "Pep508.C08.unnamed_layout_full", "Pep508.C19.unnamed_no_panic", "Pep508.C19.unnamed_err_boundary", "Pep508.C19.unnamed_call_span", "Pep508.C19.scan_is_rule", "Pep508.C19.parse_unnamed_url_is_rule", "Pep508.C19.rule_is_first_stop", "Pep508.C19.token_no_ws", "Pep508.C19.ws_in_brackets", "Pep508.C19.accepts", "Pep508.C19.accepts_marker", "Pep508.C19.roundtrip", "Pep508.C19.roundtrip_marker", "Pep508.C19.bracket_ambiguity", "Pep508.C19.old_requirement_end", "Pep508.C19.archive_rule", "Pep508.C19.scheme_rule", "Pep508.C19.path_unsupported", "Pep508.C19.path_never_accepted",
                      "Pep508.C19.scheme_url_unsupported", "Pep508.C19.scheme_url_never_accepted", "Pep508.C19.relpath_unsupported",
@@ -295,7 +298,7 @@ PROPS = {
                 "suffixes (none, extras, marker, both, spaced extras, trailing blanks): never accepted as a named requirement and rejected with the unsupported-requirement kind; every outcome "
                 "is compared with the Lean model (looksLikeUnnamed, splitScheme, splitExtras, looksLikeArchive with the std::path extension rules); split_scheme / split_extras are compared "
                 "directly; non-trivial = distinct texts",
-        "trusted": ["the unnamed-requirement parser (feature non-pep508-extensions) is exercised by the oracle only when the harness is built with that feature (thorough tier)"], "assumptions": [],
+        "trusted": ["the unnamed-requirement parser (feature non-pep508-extensions) is exercised only when the harness is built with that feature (quick and thorough tier of C19, C08, C06; thorough tier of the others)"], "assumptions": [],
     },
 }
 
@@ -316,7 +319,7 @@ MANIFEST_TEXT = {
     "C08": {
         "technique": "Lean 4 theorem: the model requirement parser applied to the model Display of every well-formed requirement value returns that value (name, extras, the exact texts handed to the external specifier / URL parsers with their spans, marker as the marker parser reads it) and never rejects it; Display model compared with to_string() on every accepted requirement; round-trip oracle (Display, re-render, serde_json both ways)",
         "text": "roundtrip / roundtrip_marker / calls / calls_spans / never_rejected over all ReqVal satisfying the explicit predicate ReqVal.WF (what the printers of a parsed requirement guarantee); the two exclusions are proved necessary (url_semicolon_marker_rejected: F20; archive_name_rejected); implementation-level round trips of every accepted generated requirement, marker compared by equivalence only inside the property's carve-out.",
-        "note": _NOTE + "partial: the theorem covers the glue (separators, token boundaries, URL end, blank before `;`); that pep440_rs / url re-parse their own printed texts to equal values, and that the marker text re-parses to the same marker (C05), are hypotheses of roundtrip_marker; C08b (Proofs/Compose.lean) discharges the marker hypothesis by composing the marker layout theorem (C01b) with the marker Display round trip (C05b): requirement_roundtrip_full returns the same DIAGRAM for every printable diagram with separated bounds, requirement_roundtrip_false is the FALSE carve-out, unnamed_roundtrip_full the unnamed form (model compared with the extension build in the thorough tier); that pep440_rs / url re-parse their own printed texts stays external (implementation-level oracle).",
+        "note": _NOTE + "partial: the theorem covers the glue (separators, token boundaries, URL end, blank before `;`); that pep440_rs / url re-parse their own printed texts to equal values, and that the marker text re-parses to the same marker (C05), are hypotheses of roundtrip_marker; C08b (Proofs/Compose.lean) discharges the marker hypothesis by composing the marker layout theorem (C01b) with the marker Display round trip (C05b): requirement_roundtrip_full returns the same DIAGRAM for every printable diagram with separated bounds, requirement_roundtrip_false is the FALSE carve-out, unnamed_roundtrip_full the unnamed form (model compared with the extension build of the harness); that pep440_rs / url re-parse their own printed texts stays external (implementation-level oracle).",
     },
     "C14": {
         "technique": "Lean 4 refinement proof: the id-level interner (append-only arena = unique table, AND memo cache, complemented edges, create_node normalisation) refines the "
